@@ -25,7 +25,7 @@ install = c01.install
 install_conc = c01.install
 
 
-def run(sx, topo, order, rots, spec, force=None):
+def run(sx, topo, order, rots, spec, force=None, regrade=False):
     cells = g1.TOPOLOGIES[topo]
     mesh, blocks = g1.build_mesh(cells, order, rots)
     chops = g1.place_chops(sx, blocks, c01._spec(spec))
@@ -77,6 +77,14 @@ def run(sx, topo, order, rots, spec, force=None):
                      f"C02:count-not-from-chop:{tag}")
     if outcome == "ok":
         counts = {f"{i},{ax}": blocks[i].axes[ax].count for i in blocks for ax in range(3)}
+    if outcome == "ok" and regrade:
+        # the counts are a function of the chops: writing the same mesh once more derives the same counts from them
+        again = g1.grade(mesh, len(cells), via_write=True)
+        sx.prove(again == "ok", "writing the same mesh a second time ends like the first time", f"C02:regrade:outcome:{tag}",
+                 info={"second": again})
+        if again == "ok":
+            sx.prove(sx.all([blocks[i].axes[ax].count == counts[f"{i},{ax}"] for i in blocks for ax in range(3)]),
+                     "the second write derives the same count for every block direction", f"C02:regrade:counts:{tag}")
     if sx.sym:
         sx.keep = {"outcome": outcome, "counts": counts, "flags": tuple(sorted(chops)), "topo": topo}
     elif force is not None:
@@ -195,7 +203,5 @@ def post_job(job, kept, out):
 def jobs(tier, seed):
     js = []
     for j in c01.jobs(tier, seed):
-        if j["params"].pop("regrade", False):
-            continue          # C01's graded-twice variants; the second write of one mesh is C12's subject
-        js.append(j)
+        js.append(j)          # C01's graded-twice variants included: the counts of the second write are derived from the same chops
     return js
